@@ -6,6 +6,12 @@ ALL = ["C%02d" % i for i in range(1, 21)]
 
 # property id -> dict(category, text, note, technique, design_ref)
 CLAIMED = {
+    "C11": dict(
+        category="other",
+        text="get_node is evaluated over an ordering domain (symbolic scores and names related only by order): a 7-case inductive step shows the fold is the argmax under (score, name) for any number of nodes, whole-function evaluation over all weak orderings x list orders up to 3/4 nodes cross-checks order independence; def-use shows each score depends only on (node, key, seed) with input '<node>-<key>'; with the HRW theorem this gives minimal disruption. Purity, set-like add/remove, canonical node names are structure rules. Spread and spelling-equivalence for all strings are not decided.",
+        note="Trusted: CPython ast; path interpreter; ordering-domain transformers; scores non-negative (C14.R1); node names are str. An add/remove implementation other than append/remove-by-value under a membership test is ANALYSIS-ERROR (not decidable structurally).",
+        technique="finite abstract evaluation over an ordering domain (inductive step + exhaustive small cases) + def-use and purity rules",
+    ),
     "C14": dict(
         category="translation_validation",
         text="Value-graph translation validation of murmur3_32 against the reference MurmurHash3_x86_32 written in the checker: initial state, loop header and little-endian byte indices, block body, the four tail cases followed by the finaliser are each normalised to a term over + * ^ | & << >> modulo 2**32 (rotl recognition, bit-disjoint |,^,+ unified) and must be syntactically equal to the reference term; a width analysis shows every operand of >> and the result are below 2**32. Decided for code points 0..255 and len < 2**32; for other strings only width and purity.",
